@@ -14,6 +14,7 @@ pub fn run() {
         ("MAX_HISTORY_DURATION", v::MAX_HISTORY_DURATION),
         ("MAX_MESSAGE_DURATION_SECS", v::MAX_MESSAGE_DURATION_SECS),
         ("PREFIX_SEARCH_LEN", v::framing::PREFIX_SEARCH_LEN as u64),
+        ("MAX_BURST_LENGTH", v::framing::MAX_BURST_LENGTH as u64),
         ("PREAMBLE", v::PREAMBLE as u64),
         ("PREAMBLE_SYNC_WORD", v::PREAMBLE_SYNC_WORD as u64),
         // BAUD_HZ is an f32; the proofs use it in hundredths of a hertz
